@@ -837,8 +837,9 @@ def run_faults(tier: str, rng: random.Random, add_fail, clauses: Dict[str, int],
         if res["caught"]:
             distinct.add(key)
         inp = {"cfg": cfg, "body": body, "k": k, "persist": persist, "block_at": block_at}
-        ik = "%s/%s/t%d/body%d/k%s%s/b%s" % (cfg["kind"], cfg.get("carrier", "r")[:3], int(bool(cfg.get("transient"))),
-                                              len(body), k, "+" if persist else "", block_at)
+        ik = "%s/%s/t%d/r%d/body%d/k%s%s/b%s" % (cfg["kind"], cfg.get("carrier", "r")[:3], int(bool(cfg.get("transient"))),
+                                                  int(bool(cfg.get("redirect", True))), len(body), k,
+                                                  "+" if persist else "", block_at)
         if res["problems"] and res["caught"]:
             add_fail(clause, "after %s escaped from %s.%s: %s" % (res["caught"], cfg["kind"], res["where"], "; ".join(res["problems"])),
                      ik, inp, "stdout/stderr originals, no render hook left, cursor shown", res["problems"], size=len(body) + (k or 0))
@@ -930,7 +931,7 @@ def run(tier: str, seed: int) -> dict:
     quick = tier != "thorough"
     n_cases = 420 if quick else 24000
     tall_every = 4
-    budget = 24.0 if quick else 520.0
+    budget = 24.0 if quick else 420.0
     failures: List[dict] = []
     per_clause: Dict[str, int] = {}
     suppressed: Dict[str, int] = {}
@@ -1008,7 +1009,12 @@ def run(tier: str, seed: int) -> dict:
         items.sort(key=lambda it: (it["f"]["op_index"], len(it["r"]["ops"]), it["r"]["i"]))
         kept = 0
         seen_keys = set()
+        # prefer one candidate per kind of display, then the rest; look at no more than 8 candidates
+        by_kind: Dict[str, List[dict]] = {}
         for it in items:
+            by_kind.setdefault(it["r"]["cfg"]["kind"], []).append(it)
+        candidates = [lst[0] for lst in by_kind.values()] + [it for lst in by_kind.values() for it in lst[1:3]]
+        for it in candidates[:8]:
             if kept >= MAX_FAIL_PER_CLAUSE:
                 break
             cfg, ops = it["r"]["cfg"], it["r"]["ops"]
@@ -1019,7 +1025,8 @@ def run(tier: str, seed: int) -> dict:
                     ops, f = ops2, f2
             else:
                 ops = ops[: f["op_index"] + 1]
-            ik = "%s/w%d/h%d/%s/%s" % (cfg["kind"], cfg["width"], cfg["height"], "t" if cfg.get("transient") else "p",
+            ik = "%s/w%d/h%d/%s/%s" % (cfg["kind"], cfg["width"], cfg["height"],
+                                        "t" if (cfg.get("transient") or cfg["kind"] == "Status") else "p",
                                         hashlib.sha1(json.dumps([cfg, ops], sort_keys=True).encode()).hexdigest()[:10])
             sig = json.dumps([cfg["kind"], bool(cfg.get("transient")), [o[0] for o in ops]])
             if sig in seen_keys:
